@@ -12,14 +12,17 @@ cd $wt
 demos=$(ls $dir/*_test.go 2>/dev/null)
 meta_pkg=""
 for d in $demos; do
-  pkg=$(grep -l "" $d >/dev/null; python3 - "$dir" "$d" <<'PY'
+  pkg=$(python3 - "$dir" "$d" <<'PY'
 import json,sys,os,re
 d=sys.argv[2]
 m=json.load(open(os.path.join(sys.argv[1],'meta.json')))
-# find package dir from meta demo text
 t=m.get('demo','')
-mm=re.search(r'([\w/]+)/'+re.escape(os.path.basename(d)),t)
-print(mm.group(1) if mm else '')
+t=json.dumps(t) if not isinstance(t,str) else t
+mm=re.search(r'((?:[\w.-]+/)+)'+re.escape(os.path.basename(d)),t)
+p=mm.group(1).rstrip('/') if mm else ''
+p=re.sub(r'^.*?tmp/seed/[^/]+/','',p)
+p=re.sub(r'^/?tmp/seed/[^/]+/?','',p)
+print(p)
 PY
 )
   [ -z "$pkg" ] && { echo "cannot locate package dir for $d"; continue; }
